@@ -31,6 +31,9 @@ pub struct FCase {
     pub s: u16,
     pub t: u16,
     pub float: bool,
+    /// u8 capacities from {0,1,127,128,254,255}: max flows at and around the type's maximum
+    #[serde(default)]
+    pub sat: bool,
 }
 
 pub fn m_strategy(tier: Tier) -> BoxedStrategy<MCase> {
@@ -42,8 +45,8 @@ pub fn m_strategy(tier: Tier) -> BoxedStrategy<MCase> {
 
 pub fn f_strategy(tier: Tier) -> BoxedStrategy<FCase> {
     let (maxn, maxm) = if tier == Tier::Quick { (8, 24) } else { (11, 36) };
-    (raw_graph(2, maxn, maxm, Some(true)), any::<u8>(), any::<u8>(), any::<u16>(), any::<u16>(), any::<bool>())
-        .prop_map(|(g, enc, salt, s, t, float)| FCase { g, enc, salt, s, t, float })
+    (raw_graph(2, maxn, maxm, Some(true)), any::<u8>(), any::<u8>(), any::<u16>(), any::<u16>(), any::<bool>(), prop_oneof![4 => Just(false), 1 => Just(true)])
+        .prop_map(|(g, enc, salt, s, t, float, sat)| FCase { g, enc, salt, s, t, float, sat })
         .boxed()
 }
 
@@ -337,13 +340,34 @@ where
 const FOPTS: GOpts = GOpts::new(true, true, 0, 9);
 
 pub fn f_run(c: &FCase) -> Outcome {
-    let a = c.g.build(&FOPTS);
+    let mut a = c.g.build(&FOPTS);
     let n = a.n;
     let mut obs = Obs::default();
     let s = pick(c.s, n);
     let mut t = pick(c.t, n);
     if t == s {
         t = (s + 1) % n;
+    }
+    if c.sat {
+        // u8 capacities around the type's maximum; instances whose max flow does not fit in u8 are out of domain
+        for e in a.edges.iter_mut() {
+            e.2 = [0, 1, 127, 128, 254, 255, 1, 0, 127, 255][e.2 as usize % 10];
+        }
+        if min_cut(&a, s, t) > 255 {
+            obs.label("u8 instance skipped: max flow exceeds the type");
+            return Ok(obs);
+        }
+        let salt = c.salt as u64 + 1;
+        if c.enc % 2 == 0 {
+            let g: Graph<usize, u8, Directed, u32> = to_graph(&a, <u8 as Cap>::of);
+            flow(&g, &View::full(&a, (0..n).map(NodeIndex::new)), s, t, &mut obs)?;
+        } else {
+            let (g, map) = to_stable_holes::<u8, Directed, u32>(&a, salt, <u8 as Cap>::of);
+            flow(&g, &View::full(&a, map), s, t, &mut obs)?;
+        }
+        obs.label("u8 capacities near the maximum");
+        obs.label_if(min_cut(&a, s, t) == 255, "max flow == u8::MAX");
+        return Ok(obs);
     }
     let salt = c.salt as u64 + 1;
     macro_rules! go {
